@@ -103,7 +103,7 @@ CHECKS = {
         "technique": "Hypothesis program generation, differential against the object API with a spec-side class-semantics resolver",
     },
     "C17": {
-        "text": "For generated function signatures (plain/method/classmethod/staticmethod, sync/async, defaults, *args, keyword-only, **kwargs), decorators (check_input/check_output/check_io/check_types with every getter form), call shapes and validation options, the decorated function is run against an independent reference (inspect.signature.bind + schema.validate per designated slot + the undecorated function): whether the body ran, what it saw at every parameter, the result or exception class, the caller's objects afterwards.",
+        "text": "For generated function signatures (plain/method/classmethod/staticmethod, sync/async, defaults, *args, keyword-only, **kwargs), decorators (check_input/check_output/check_io/check_types with every getter form), call shapes and validation options, the decorated function is run against an independent reference (inspect.signature.bind + schema.validate per designated slot + the undecorated function): whether the body ran, what it saw at every parameter, the result or exception class, the caller's objects afterwards; a compact polars twin (DataFrame / LazyFrame, pandera.typing.polars annotations).",
         "design_ref": "DESIGN.md §2 C17",
         "note": "Trusts schema.validate for the data verdict and inspect.signature.bind for binding; one recorded known finding (Union + lazy).",
         "technique": "Hypothesis-generated programs (source exec'd) + differential reference binding oracle",
